@@ -713,11 +713,15 @@ func (cr *checkRun) replayOnRealCode(a *Agg, inst *Oblig, base string) (string, 
 	report := &strings.Builder{}
 	fmt.Fprintf(report, "obligation: %s\nstatus: %s\nproperty: %s\nwhere: %s\npath: %s\n", a.Name, a.Status, cr.id, inst.Pos, inst.Trail)
 	path := base + ".replay.txt"
+	var sessLog *bytes.Buffer
 	finish := func(ok bool, msg string) (string, bool) {
 		fmt.Fprintf(report, "replay verdict: %s\n", msg)
 		if !ok {
 			// the caller writes the plain artefact; keep what was learnt beside it
 			os.WriteFile(base+".replay-attempt.txt", []byte(report.String()), 0o644)
+			if sessLog != nil && os.Getenv("GOVC_DEBUG") != "" {
+				os.WriteFile(base+".replay-session.smt2", sessLog.Bytes(), 0o644)
+			}
 			return "", false
 		}
 		os.WriteFile(path, []byte(report.String()), 0o644)
@@ -748,6 +752,7 @@ func (cr *checkRun) replayOnRealCode(a *Agg, inst *Oblig, base string) (string, 
 		return finish(false, "cannot start z3-new: "+err.Error())
 	}
 	defer sess.close()
+	sessLog = &sess.log
 	sess.send(q)
 	entryHeap := func(kind string, root types.Type, leaf Leaf) Term {
 		key := heapKey(kind, root, leaf)
